@@ -363,6 +363,8 @@ class Ctx:
   # -- obligations ------------------------------------------------------
   def oblige(self, goal, label, kind, props=(), extra_hyps=(), _split=False,
              _name=None):
+    if getattr(self, 'no_oblige', False):
+      return
     if len(self.decisions) < len(self.prefix):
       # replay of a recorded prefix: this obligation was already emitted by
       # the path that first reached this point (same code, same decisions)
@@ -525,6 +527,7 @@ def conform(ctx, v, shape):
     n = v.length if isinstance(v, VSeq) else z3.If(v.hi > v.lo, v.hi - v.lo, 0)
     a = z3.Const(ctx.sym('arr_of_list'), sort_named('Arr'))
     ctx.assume(z3.Function('len_Arr', sort_named('Arr'), z3.IntSort())(a) == n)
+    ctx.assume(z3.Function('ndim_Arr', sort_named('Arr'), z3.IntSort())(a) == 1)
     return VOpaque(a, 'Arr')
   if isinstance(shape, TSeq) and isinstance(v, VTuple) and v.tname == 'list' and (
       not v.items):
@@ -673,6 +676,8 @@ class Exec:
       self.unsupported(node, 'no %s in module %s' % (attr, short))
     dotted = modname + '.' + attr
     if dotted in self.world.lib:
+      if dotted in ('numpy.nan', 'numpy.inf'):
+        return self.world.lib[dotted](self, [], {}, node)
       return VCallable('lib', dotted)
     if any(isinstance(k, str) and k.startswith(dotted + '.')
            for k in self.world.lib):
@@ -1386,9 +1391,14 @@ class Exec:
     # frame
     before = {(oid, f): v for oid, rec in ctx.objects.items()
               for f, v in rec.fields.items()}
+    if contract.returns is not None:
+      contract._ret_pre = unwrap(contract.returns(ns))
     self.havoc_frame(contract, bound, ns)
     result = NONE
-    if contract.result is not None:
+    if contract.returns is not None:
+      # value = spec function of the PRE-state (evaluated before the frame)
+      result = contract._ret_pre
+    elif contract.result is not None:
       result = contract.result.fresh(ctx, 'r_' + callee.split('.')[-1])
     vals = dict(bound)
     vals['result'] = result
